@@ -1,11 +1,11 @@
 #!/bin/bash
 # benign_rerun.sh [streams] : re-evaluates every stored behaviour-preserving change (/verif/seeded-benign/*)
 # against the current checks, each in its own scratch worktree of /repo (removed afterwards); nothing
-# is applied to /repo itself. Prints one line per change; "alarm=1" means a check did not exit 0.
+# is applied to /repo itself. BENIGN_FILTER=<regex> restricts the changes by name. Prints one line per change; "alarm=1" means a check did not exit 0.
 streams="${1:-3}"
 root=$(mktemp -d /tmp/benign-rerun.XXXXXX)
 cd /verif
-names=$(ls seeded-benign)
+names=$(ls seeded-benign | grep -E "${BENIGN_FILTER:-.}")
 i=0
 for n in $names; do lists[$((i % streams))]="${lists[$((i % streams))]} $n"; i=$((i+1)); done
 for s in $(seq 0 $((streams-1))); do
